@@ -47,6 +47,10 @@ def step : List String → String
     match bytesTok p, natTok n with
     | some p, some n => showPy showMeta (fromFileFallback (PyFile.ofBytes p) n)
     | _, _ => "bad-op"
+  | ["ff", p, n, _tag, _warmup] =>     -- the harness extracts `_warmup` (the intact twin of a corrupted payload) first, in the same process
+    match bytesTok p, natTok n with
+    | some p, some n => showPy showMeta (fromFileFallback (PyFile.ofBytes p) n)
+    | _, _ => "bad-op"
   | ["ffx", p, n, _tag, _nonce] =>
     match bytesTok p, natTok n with
     | some p, some n => showPy showMeta (fromFileFallback (PyFile.ofBytes p) n)
